@@ -7,6 +7,7 @@ All scalar expressions are emitted in mode 'num' (generic `K` with `[Num K]`): `
 """
 import ast
 import copy
+import re
 from pyexpr2lean import Gen, Tr, Untranslatable, load, get_def, find_returns, find_calls, call_arg
 
 M = 'Model.C17'
@@ -26,31 +27,77 @@ def strip(node):
     return ast.fix_missing_locations(_StripBroadcast().visit(copy.deepcopy(node)))
 
 
-def straight_env(stmts, env0, stop_at=None):
-    """walk straight-line assignments, inlining every translatable local into the environment.
-    returns env (python text -> Lean term).  Tuple assignments `a, b = x, y` are read component-wise."""
+def _stored_names(node):
+    """every simple name (re)bound anywhere inside `node`"""
+    out = set()
+    for n in ast.walk(node):
+        if isinstance(n, ast.Name) and isinstance(n.ctx, (ast.Store, ast.Del)):
+            out.add(n.id)
+        elif isinstance(n, (ast.AugAssign, ast.AnnAssign)) and isinstance(n.target, ast.Name):
+            out.add(n.target.id)
+        elif isinstance(n, ast.Subscript) and isinstance(n.ctx, ast.Store) and isinstance(n.value, ast.Name):
+            out.add(n.value.id)       # x[...] = v changes x
+    return out
+
+
+def poison(env, name):
+    """forget everything that mentions `name`: a later use then fails as a free name (=> Untranslatable)"""
+    pat = re.compile(r'(?<![\w.])' + re.escape(name) + r'(?![\w])')
+    for k in [k for k in env if pat.search(k)]:
+        del env[k]
+
+
+def straight_env(stmts, env0, after=None):
+    """walk a straight-line body, inlining every translatable local into the environment (python text -> Lean term).
+    SOUND w.r.t. re-binding: a name re-bound by something the translator cannot read (untranslatable right-hand side,
+    augmented assignment, subscript store, or any assignment inside if/for/while/with/try) is POISONED together with every
+    environment key that mentions it, so a later use raises Untranslatable instead of silently seeing the stale value.
+    Tuple assignments `a, b = x, y` are read component-wise (all right-hand sides in the old environment).
+    `after = {name: {key: term}}`: keys that become valid once `name` has been bound (e.g. 'np.sin(beta)' after beta);
+    binding that name a second time is refused."""
     env = dict(env0)
+    after = after or {}
+    bound_once = set()
     for st in stmts:
+        if isinstance(st, ast.Expr) and isinstance(st.value, ast.Constant):
+            continue
+        if isinstance(st, (ast.Pass, ast.Return, ast.Assert)):
+            continue
+        pairs = None
         if isinstance(st, ast.Assign) and len(st.targets) == 1:
             t = st.targets[0]
-            pairs = []
             if isinstance(t, ast.Name):
                 pairs = [(t.id, st.value)]
-            elif isinstance(t, ast.Tuple) and isinstance(st.value, ast.Tuple) and len(t.elts) == len(st.value.elts):
-                pairs = [(a.id, v) for a, v in zip(t.elts, st.value.elts) if isinstance(a, ast.Name)]
-            new = {}
-            for name, val in pairs:
-                try:
-                    new[name] = Tr(env, 'num').expr(strip(val))
-                except Untranslatable:
-                    pass
-            env.update(new)
+            elif isinstance(t, ast.Tuple) and isinstance(st.value, ast.Tuple) and len(t.elts) == len(st.value.elts) \
+                    and all(isinstance(a, ast.Name) for a in t.elts):
+                pairs = [(a.id, v) for a, v in zip(t.elts, st.value.elts)]
+        if pairs is None:
+            for nm in _stored_names(st):
+                poison(env, nm)
+            continue
+        new = {}
+        for name, val in pairs:
+            try:
+                new[name] = Tr(env, 'num').expr(strip(val))
+            except Untranslatable:
+                new[name] = None
+        for name, term in new.items():
+            poison(env, name)
+        for name, term in new.items():
+            if term is not None:
+                env[name] = term
+            if name in after:
+                if name in bound_once:
+                    raise Untranslatable(f'{name} is bound twice')
+                bound_once.add(name)
+                if term is not None:
+                    env.update(after[name])
     return env
 
 
 def matrix_literal(node):
     """np.asarray([[a, b], [c, d]]) -> [a, b, c, d] (expr nodes)"""
-    if isinstance(node, ast.Call) and ast.unparse(node.func) in ('np.asarray', 'np.array', 'numpy.asarray'):
+    if isinstance(node, ast.Call) and ast.unparse(node.func) in ('np.asarray', 'np.array', 'numpy.asarray', 'numpy.array'):
         node = node.args[0]
     if not (isinstance(node, ast.List) and len(node.elts) == 2 and all(isinstance(r, ast.List) and len(r.elts) == 2
                                                                          for r in node.elts)):
@@ -62,21 +109,52 @@ def m22(terms):
     return '⟨' + ', '.join(terms) + '⟩'
 
 
-def recognise(g, name, source, node_fn, check):
-    """a structural fact as an ITEM: `true` when the known-good shape of the source is recognised; when it is not
-    (a refactor, or a change of behaviour) the item is `untranslatable`, which widens the correspondence sweep that
-    checks the behaviour itself — a harmless rewrite never alarms, a harmful one is caught on the real outputs."""
-    def build():
-        if not check():
-            raise Untranslatable('source shape not recognised')
-        return f'def {name} : Bool := true'
-    g.item(name, source, node_fn, build, f'def {name} : Bool := true')
+def bind_call(call, params, defaults=None):
+    """positional + keyword arguments of a Call bound to parameter names -> {name: node}"""
+    if any(isinstance(a, ast.Starred) for a in call.args) or any(k.arg is None for k in call.keywords):
+        raise Untranslatable(f'star-arguments in {ast.unparse(call)[:60]}')
+    if len(call.args) > len(params):
+        raise Untranslatable(f'too many arguments in {ast.unparse(call)[:60]}')
+    out = dict(defaults or {})
+    for nm, a in zip(params, call.args):
+        out[nm] = a
+    for k in call.keywords:
+        if k.arg not in params:
+            raise Untranslatable(f'unknown keyword {k.arg}')
+        out[k.arg] = k.value
+    return out
+
+
+CONV = {
+    'np.radians': lambda a: f'(({a[0]} * pi) / (Num.ofInt (180)))',
+    'np.deg2rad': lambda a: f'(({a[0]} * pi) / (Num.ofInt (180)))',
+    'np.degrees': lambda a: f'(({a[0]} * (Num.ofInt (180))) / pi)',
+    'np.rad2deg': lambda a: f'(({a[0]} * (Num.ofInt (180))) / pi)',
+}
+
+
+def flag_branch(fn, flag):
+    """the single top-level `if <flag>:` of fn (no else) -> its body; Untranslatable otherwise"""
+    ifs = [st for st in fn.body if isinstance(st, ast.If)]
+    if len(ifs) != 1 or ast.unparse(ifs[0].test) != flag:
+        raise Untranslatable(f'expected exactly one `if {flag}:`')
+    return ifs[0]
+
+
+def default_of(fn, name):
+    args = fn.args.args
+    defs = fn.args.defaults
+    pos = [a.arg for a in args].index(name) - (len(args) - len(defs))
+    if pos < 0:
+        raise Untranslatable(f'{name} has no default')
+    return defs[pos]
 
 
 def generate(repo):
     g = Gen('C17', imports=['PrysmVerif.Model.C17'], opens=['Model.C17'],
             header='set_option linter.unusedVariables false\nvariable {K : Type} [Num K]')
     tf, _ = load(repo, 'prysm/thinfilm.py')
+    SRC = 'prysm/thinfilm.py'
 
     # ------------------------------------------------------------------ Fresnel coefficient functions
     def fresnel(pyname, leanname):
@@ -88,43 +166,81 @@ def generate(repo):
             env = straight_env(fn.body, {'n0': 'n0', 'n1': 'n1', 'np.cos(theta0)': 'c0', 'np.cos(theta1)': 'c1'})
             (ret,) = find_returns(fn)
             return f'def {leanname} (n0 n1 c0 c1 : K) : K := {Tr(env, "num").expr(ret)}'
-        g.item(pyname, f'prysm/thinfilm.py:{pyname}', lambda: get_def(tf, pyname), build,
+        g.item(pyname, f'{SRC}:{pyname}', lambda: get_def(tf, pyname), build,
                f'def {leanname} (n0 n1 c0 c1 : K) : K := {M}.{leanname} n0 n1 c0 c1')
     fresnel('fresnel_rs', 'fresnelRs')
     fresnel('fresnel_ts', 'fresnelTs')
     fresnel('fresnel_rp', 'fresnelRp')
     fresnel('fresnel_tp', 'fresnelTp')
 
-    # ------------------------------------------------------------------ Snell, Brewster, critical angle
+    # ------------------------------------------------------------------ Snell, Brewster, critical angle (+ unit conversions)
     def snell():
         fn = get_def(tf, 'snell_aor')
+        if [a.arg for a in fn.args.args] != ['n0', 'n1', 'theta', 'degrees']:
+            raise Untranslatable('signature of snell_aor')
+        br = flag_branch(fn, 'degrees')
+        if br.orelse or len(br.body) != 1 or not isinstance(br.body[0], ast.Assign) \
+                or ast.unparse(br.body[0].targets[0]) != 'theta':
+            raise Untranslatable('`if degrees:` does not just convert theta')
+        conv = Tr({'theta': 'theta', 'np.pi': 'pi'}, 'num', CONV).expr(br.body[0].value)
         (ret,) = find_returns(fn)
         if not (isinstance(ret, ast.Call) and ast.unparse(ret.func).endswith('arcsin') and len(ret.args) == 1):
             raise Untranslatable('snell_aor does not return arcsin(...)')
-        return 'def snellSin (n0 n1 s0 : K) : K := ' + \
-            Tr({'n0': 'n0', 'n1': 'n1', 'np.sin(theta)': 's0'}, 'num').expr(ret.args[0])
-    g.item('snell_aor', 'prysm/thinfilm.py:snell_aor', lambda: get_def(tf, 'snell_aor'), snell,
-           f'def snellSin (n0 n1 s0 : K) : K := {M}.snellSin n0 n1 s0')
+        rest = [st for st in fn.body if not (isinstance(st, ast.Expr) and isinstance(st.value, ast.Constant))
+                and st is not br and not isinstance(st, ast.Return)]
+        if rest:
+            raise Untranslatable('extra statements in snell_aor')
+        dflt = ast.literal_eval(default_of(fn, 'degrees'))
+        return ('def snellSin (n0 n1 s0 : K) : K := ' +
+                Tr({'n0': 'n0', 'n1': 'n1', 'np.sin(theta)': 's0'}, 'num').expr(ret.args[0]) +
+                f'\n/-- the angle handed to `sin` when `degrees=True` -/\ndef snellAngleFromDegrees (pi theta : K) : K := {conv}' +
+                f'\ndef snellDegreesDefault : Bool := {"true" if dflt else "false"}')
+    g.item('snell_aor', f'{SRC}:snell_aor', lambda: get_def(tf, 'snell_aor'), snell,
+           f'def snellSin (n0 n1 s0 : K) : K := {M}.snellSin n0 n1 s0\n'
+           'def snellAngleFromDegrees (pi theta : K) : K := theta * pi / Num.ofInt 180\ndef snellDegreesDefault : Bool := true')
+
+    def angle_out(fn, flag, inner):
+        """`ang = inner(...)`; `if flag: return conv(ang)`; `return ang`  ->  Lean term of conv in `ang`"""
+        br = flag_branch(fn, flag)
+        rets = [st for st in br.body if isinstance(st, ast.Return)]
+        if len(br.body) != 1 or len(rets) != 1:
+            raise Untranslatable(f'`if {flag}:` is not a single return')
+        conv = Tr({'ang': 'ang', 'np.pi': 'pi'}, 'num', CONV).expr(rets[0].value)
+        tail = [st for st in (br.orelse or fn.body[fn.body.index(br) + 1:]) if isinstance(st, ast.Return)]
+        if len(tail) != 1 or ast.unparse(tail[0].value) != 'ang':
+            raise Untranslatable('the other branch does not return ang')
+        a = [st for st in fn.body if isinstance(st, ast.Assign)]
+        if len(a) != 1 or ast.unparse(a[0].targets[0]) != 'ang' or not isinstance(a[0].value, ast.Call) \
+                or ast.unparse(a[0].value.func) != inner:
+            raise Untranslatable(f'ang is not a single {inner}(...)')
+        dflt = ast.literal_eval(default_of(fn, flag))
+        return a[0].value, conv, dflt
 
     def brewster():
         fn = get_def(tf, 'brewsters_angle')
-        calls = find_calls(fn, 'np.arctan2')
-        if len(calls) != 1 or len(calls[0].args) != 2:
-            raise Untranslatable('brewsters_angle is not a single arctan2(y, x)')
+        call, conv, dflt = angle_out(fn, 'deg', 'np.arctan2')
+        if len(call.args) != 2:
+            raise Untranslatable('arctan2 arguments')
         tr = Tr({'n0': 'n0', 'n1': 'n1'}, 'num')
-        return (f'def brewsterY (n0 n1 : K) : K := {tr.expr(calls[0].args[0])}\n'
-                f'def brewsterX (n0 n1 : K) : K := {tr.expr(calls[0].args[1])}')
-    g.item('brewsters_angle', 'prysm/thinfilm.py:brewsters_angle', lambda: get_def(tf, 'brewsters_angle'), brewster,
-           'def brewsterY (n0 n1 : K) : K := n1\ndef brewsterX (n0 n1 : K) : K := n0')
+        return (f'def brewsterY (n0 n1 : K) : K := {tr.expr(call.args[0])}\n'
+                f'def brewsterX (n0 n1 : K) : K := {tr.expr(call.args[1])}\n'
+                f'def brewsterToDegrees (pi ang : K) : K := {conv}\n'
+                f'def brewsterDegDefault : Bool := {"true" if dflt else "false"}')
+    g.item('brewsters_angle', f'{SRC}:brewsters_angle', lambda: get_def(tf, 'brewsters_angle'), brewster,
+           'def brewsterY (n0 n1 : K) : K := n1\ndef brewsterX (n0 n1 : K) : K := n0\n'
+           'def brewsterToDegrees (pi ang : K) : K := ang * Num.ofInt 180 / pi\ndef brewsterDegDefault : Bool := true')
 
     def critical():
         fn = get_def(tf, 'critical_angle')
-        calls = find_calls(fn, 'np.arcsin')
-        if len(calls) != 1 or len(calls[0].args) != 1:
-            raise Untranslatable('critical_angle is not a single arcsin(x)')
-        return 'def criticalSin (n0 n1 : K) : K := ' + Tr({'n0': 'n0', 'n1': 'n1'}, 'num').expr(calls[0].args[0])
-    g.item('critical_angle', 'prysm/thinfilm.py:critical_angle', lambda: get_def(tf, 'critical_angle'), critical,
-           'def criticalSin (n0 n1 : K) : K := n0 / n1')
+        call, conv, dflt = angle_out(fn, 'deg', 'np.arcsin')
+        if len(call.args) != 1:
+            raise Untranslatable('arcsin argument')
+        return ('def criticalSin (n0 n1 : K) : K := ' + Tr({'n0': 'n0', 'n1': 'n1'}, 'num').expr(call.args[0]) +
+                f'\ndef criticalToDegrees (pi ang : K) : K := {conv}\n'
+                f'def criticalDegDefault : Bool := {"true" if dflt else "false"}')
+    g.item('critical_angle', f'{SRC}:critical_angle', lambda: get_def(tf, 'critical_angle'), critical,
+           'def criticalSin (n0 n1 : K) : K := n0 / n1\ndef criticalToDegrees (pi ang : K) : K := ang * Num.ofInt 180 / pi\n'
+           'def criticalDegDefault : Bool := true')
 
     # ------------------------------------------------------------------ characteristic matrices
     def char(pyname, leanname, betaname):
@@ -139,16 +255,17 @@ def generate(repo):
                 raise Untranslatable('no translatable assignment to beta')
             beta = env['beta']
             # the trigonometric functions must be taken of beta: sinb, cosb = np.sin(beta), np.cos(beta)
-            env2 = straight_env(fn.body, {**base, 'np.sin(beta)': 'sinb', 'np.cos(beta)': 'cosb', '-1j': 'mI', '1j': '(-mI)'})
+            env2 = straight_env(fn.body, {**base, '-1j': 'mI', '1j': '(-mI)'},
+                                after={'beta': {'np.sin(beta)': 'sinb', 'np.cos(beta)': 'cosb'}})
             (ret,) = find_returns(fn)
             ents = [Tr(env2, 'num').expr(e) for e in matrix_literal(ret)]
             for e in ents:
-                if 'lam' in e.split() or 'pi' in e.split():
+                if re.search(r'(?<!\w)(lam|pi|d)(?!\w)', e):
                     raise Untranslatable('matrix entry depends on beta other than through sin/cos(beta)')
             return (f'def {betaname} (pi lam d n cost : K) : K := {beta}\n'
                     f'def {leanname} (mI sinb cosb cost n : K) : M22 K := {m22(ents)}')
         modelname = 'layerP' if leanname == 'charP' else 'layerS'
-        g.item(pyname, f'prysm/thinfilm.py:{pyname}', lambda: get_def(tf, pyname), build,
+        g.item(pyname, f'{SRC}:{pyname}', lambda: get_def(tf, pyname), build,
                f'def {betaname} (pi lam d n cost : K) : K := {M}.beta pi lam d n cost\n'
                f'def {leanname} (mI sinb cosb cost n : K) : M22 K := {M}.{modelname} mI sinb cosb cost n')
     char('characteristic_matrix_p', 'charP', 'betaP')
@@ -166,37 +283,41 @@ def generate(repo):
             tr = Tr(env, 'num')
             if 'term1' not in env:
                 raise Untranslatable('term1 not translatable')
-            # term2: a single top-level 2x2 literal
-            t2 = [st.value for st in fn.body if isinstance(st, ast.Assign) and ast.unparse(st.targets[0]) == 'term2'
-                  and not ast.unparse(st.value).startswith('np.moveaxis')]
+
+            def assigns(name):
+                return [st.value for st in ast.walk(fn) if isinstance(st, ast.Assign) and ast.unparse(st.targets[0]) == name]
+
+            def tables(name):
+                lit, other = [], []
+                for v in assigns(name):
+                    if ast.unparse(v).replace(' ', '') == f'np.moveaxis({name},2,0)':
+                        continue            # batch axis to the front: no effect on the per-element table
+                    try:
+                        lit.append([tr.expr(e) for e in matrix_literal(strip(v))])
+                    except Untranslatable:
+                        other.append(ast.unparse(v))
+                if other:
+                    raise Untranslatable(f'{name} is also assigned {other[0][:50]}')
+                return lit
+            t2 = tables('term2')
             if len(t2) != 1:
                 raise Untranslatable('term2 is not assigned exactly one literal')
-            term2 = [tr.expr(e) for e in matrix_literal(strip(t2[0]))]
             # term4: one literal in each branch of the batched / scalar `if`; both must carry the same table
-            t4 = []
-            for st in fn.body:
-                if isinstance(st, ast.If):
-                    for br in (st.body, st.orelse):
-                        for s2 in br:
-                            if isinstance(s2, ast.Assign) and ast.unparse(s2.targets[0]) == 'term4' \
-                                    and not ast.unparse(s2.value).startswith('np.moveaxis'):
-                                t4.append([tr.expr(e) for e in matrix_literal(strip(s2.value))])
+            t4 = tables('term4')
             if len(t4) != 2 or t4[0] != t4[1]:
                 raise Untranslatable(f'term4 tables of the batched and scalar branches differ or are missing: {t4}')
-            # term3 = reduce(np.matmul, characteristic_matrices) or the single matrix
-            t3 = [ast.unparse(st.value) for st in ast.walk(fn) if isinstance(st, ast.Assign)
-                  and ast.unparse(st.targets[0]) == 'term3']
-            if sorted(t3) != sorted(['reduce(np.matmul, characteristic_matrices)', 'characteristic_matrices[0]']):
+            # term3 = ordered product of the list (reduce(np.matmul, ...)) or its single element
+            t3 = sorted(ast.unparse(v) for v in assigns('term3'))
+            if t3 != sorted(['reduce(np.matmul, characteristic_matrices)', 'characteristic_matrices[0]']):
                 raise Untranslatable(f'term3: {t3}')
             # term12 = term1 * term2 (np.dot with a scalar / tensordot over the batch axis)
-            t12 = [ast.unparse(st.value) for st in ast.walk(fn) if isinstance(st, ast.Assign)
-                   and ast.unparse(st.targets[0]) == 'term12']
-            if sorted(t12) != sorted(['np.tensordot(term2, term1, axes=(0, 0))', 'np.dot(term1, term2)']):
+            t12 = sorted(ast.unparse(v) for v in assigns('term12'))
+            if t12 != sorted(['np.tensordot(term2, term1, axes=(0, 0))', 'np.dot(term1, term2)']):
                 raise Untranslatable(f'term12: {t12}')
             # the product that is returned first
             ret = [st.value for st in fn.body if isinstance(st, ast.Return)][0]
             if not (isinstance(ret, ast.Call) and ast.unparse(ret.func) == 'reduce' and
-                    ast.unparse(ret.args[0]) == 'np.matmul' and isinstance(ret.args[1], ast.Tuple)):
+                    ast.unparse(ret.args[0]) == 'np.matmul' and isinstance(ret.args[1], (ast.Tuple, ast.List))):
                 raise Untranslatable('return is not reduce(np.matmul, (...))')
             names = {'term12': f'(M22.smul ({leanname}Term1 n0 cost0) ({leanname}Term2 n0 cost0))', 'term3': 'M',
                      'term4': f'({leanname}Term4 ne coste)'}
@@ -207,10 +328,17 @@ def generate(repo):
             for nm in order[1:]:
                 prod = f'(M22.mul {prod} {names[nm]})'
             return (f'def {leanname}Term1 (n0 cost0 : K) : K := {env["term1"]}\n'
-                    f'def {leanname}Term2 (n0 cost0 : K) : M22 K := {m22(term2)}\n'
+                    f'def {leanname}Term2 (n0 cost0 : K) : M22 K := {m22(t2[0])}\n'
                     f'def {leanname}Term4 (ne coste : K) : M22 K := {m22(t4[0])}\n'
                     f'def {leanname} (n0 cost0 : K) (M : M22 K) (ne coste : K) : M22 K :=\n  {prod}')
-        g.item(pyname, f'prysm/thinfilm.py:{pyname}', lambda: get_def(tf, pyname), build,
+        if leanname == 'amatP':
+            fb2, fb4 = '⟨n0, cost0, n0, -cost0⟩', '⟨coste, Num.ofInt 0, ne, Num.ofInt 0⟩'
+        else:
+            fb2, fb4 = '⟨n0 * cost0, Num.ofInt 1, n0 * cost0, Num.ofInt (-1)⟩', '⟨Num.ofInt 1, Num.ofInt 0, ne * coste, Num.ofInt 0⟩'
+        g.item(pyname, f'{SRC}:{pyname}', lambda: get_def(tf, pyname), build,
+               f'def {leanname}Term1 (n0 cost0 : K) : K := Num.ofInt 1 / (Num.ofInt 2 * n0 * cost0)\n'
+               f'def {leanname}Term2 (n0 cost0 : K) : M22 K := {fb2}\n'
+               f'def {leanname}Term4 (ne coste : K) : M22 K := {fb4}\n'
                f'def {leanname} (n0 cost0 : K) (M : M22 K) (ne coste : K) : M22 K := {M}.{leanname} n0 cost0 M ne coste')
     amat('multilayer_matrix_p', 'amatP')
     amat('multilayer_matrix_s', 'amatS')
@@ -222,59 +350,172 @@ def generate(repo):
             env = {f'Amat[..., {i}, {j}]': f'A.{"abcd"[2 * i + j]}' for i in (0, 1) for j in (0, 1)}
             (ret,) = find_returns(fn)
             return f'def {leanname} (A : M22 K) : K := {Tr(env, "num").expr(ret)}'
-        g.item(pyname, f'prysm/thinfilm.py:{pyname}', lambda: get_def(tf, pyname), build,
+        g.item(pyname, f'{SRC}:{pyname}', lambda: get_def(tf, pyname), build,
                f'def {leanname} (A : M22 K) : K := {M}.{leanname} A')
     tot('rtot', 'rtot')
     tot('ttot', 'ttot')
 
-    # ------------------------------------------------------------------ wiring of multilayer_stack_rt
+    # ------------------------------------------------------------------ wiring of multilayer_stack_rt, TRANSLATED
+    # Each call site of the pipeline becomes a Lean definition whose arguments are placed as the source places them, so a
+    # swapped / wrong argument changes the definition the theorems `gen_stack_*` speak about.
     def stack_fn():
         return get_def(tf, 'multilayer_stack_rt')
+    SSRC = f'{SRC}:multilayer_stack_rt'
 
-    def snell_wiring():
-        calls = find_calls(stack_fn(), 'snell_aor')
-        texts = sorted(ast.unparse(c) for c in calls)
-        return texts == sorted(['snell_aor(ambient_index, indices[:, i], aoi, degrees=False)',
-                                'snell_aor(ambient_index, indices[i], aoi, degrees=False)'])
-    recognise(g, 'stackAnglesFromAmbientBySnell', 'prysm/thinfilm.py:multilayer_stack_rt', None, snell_wiring)
-
-    def aoi_radians():
-        fn = stack_fn()
-        a = [ast.unparse(st.value) for st in fn.body if isinstance(st, ast.Assign) and ast.unparse(st.targets[0]) == 'aoi']
-        return a == ['np.radians(aoi)']
-    recognise(g, 'stackAoiDegreesToRadians', 'prysm/thinfilm.py:multilayer_stack_rt', None, aoi_radians)
-
-    def layer_wiring():
-        calls = find_calls(stack_fn(), 'fn1')
-        texts = sorted(ast.unparse(c) for c in calls)
-        return texts == sorted(['fn1(wavelength, thicknesses[:, i], indices[:, i], angles[:, i])',
-                                'fn1(wavelength, thicknesses[i], indices[i], angles[i])'])
-    recognise(g, 'stackLayerArgsInOrder', 'prysm/thinfilm.py:multilayer_stack_rt', None, layer_wiring)
-
-    def exit_wiring():
-        calls = find_calls(stack_fn(), 'fn2')
-        texts = sorted(ast.unparse(c) for c in calls)
-        return texts == sorted(['fn2(ambient_index, aoi, Mjs, indices[:, -1], angles[:, -1])',
-                                'fn2(ambient_index, aoi, Mjs, indices[-1], angles[-1])'])
-    recognise(g, 'stackExitMediumIsLastLayer', 'prysm/thinfilm.py:multilayer_stack_rt', None, exit_wiring)
-
-    def dispatch():
-        fn = stack_fn()
-        found = {}
-        for st in ast.walk(fn):
-            if isinstance(st, ast.If) and isinstance(st.test, ast.Compare) and ast.unparse(st.test.left) == 'polarization':
+    def dispatch_aliases():
+        """{'p': (layer_alias, amat_alias, layer_fn, amat_fn), 's': ...} from the `if polarization == ...` chain"""
+        out = {}
+        for st in ast.walk(stack_fn()):
+            if isinstance(st, ast.If) and isinstance(st.test, ast.Compare) and ast.unparse(st.test.left) == 'polarization' \
+                    and len(st.test.ops) == 1 and isinstance(st.test.ops[0], ast.Eq):
                 pol = ast.literal_eval(st.test.comparators[0])
-                found[pol] = sorted(ast.unparse(s) for s in st.body)
-        return found == {'p': ['fn1 = characteristic_matrix_p', 'fn2 = multilayer_matrix_p'],
-                         's': ['fn1 = characteristic_matrix_s', 'fn2 = multilayer_matrix_s']}
-    recognise(g, 'stackPolarizationDispatch', 'prysm/thinfilm.py:multilayer_stack_rt', None, dispatch)
+                lay = am = None
+                for s2 in st.body:
+                    if isinstance(s2, ast.Assign) and isinstance(s2.targets[0], ast.Name) and isinstance(s2.value, ast.Name):
+                        if s2.value.id.startswith('characteristic_matrix_'):
+                            lay = (s2.targets[0].id, s2.value.id)
+                        elif s2.value.id.startswith('multilayer_matrix_'):
+                            am = (s2.targets[0].id, s2.value.id)
+                if lay and am:
+                    out[pol] = (lay[0], am[0], lay[1], am[1])
+        if sorted(out) != ['p', 's'] or len({v[0] for v in out.values()}) != 1 or len({v[1] for v in out.values()}) != 1:
+            raise Untranslatable('polarization dispatch not recognised')
+        return out
 
-    def split():
+    def role(node, last_ok=False):
+        """classify an argument expression of the pipeline: ambient / aoi / wavelength / layer-j column / last / first layer"""
+        t = ast.unparse(node)
+        if t in ('ambient_index', 'aoi', 'wavelength'):
+            return t
+        if isinstance(node, ast.Subscript) and isinstance(node.value, ast.Name) and node.value.id in ('indices', 'thicknesses', 'angles'):
+            idx = node.slice.elts if isinstance(node.slice, ast.Tuple) else [node.slice]
+            idx = [ast.unparse(e) for e in idx]
+            if idx in (['i'], [':', 'i']):
+                return (node.value.id, 'j')
+            if idx in (['-1'], [':', '-1']):
+                return (node.value.id, 'last')
+            if idx in (['0'], [':', '0']):
+                return (node.value.id, 'first')
+        raise Untranslatable(f'argument {t} of the pipeline not recognised')
+
+    def same_roles(calls, params):
+        rs = []
+        for c in calls:
+            b = bind_call(c, params)
+            rs.append({k: (role(v) if k not in ('degrees', 'characteristic_matrices') else ast.unparse(v)) for k, v in b.items()})
+        if not rs or any(r != rs[0] for r in rs):
+            raise Untranslatable('the batched and the scalar call sites differ')
+        return rs[0]
+
+    def stack_snell():
         fn = stack_fn()
-        a = {ast.unparse(st.targets[0]): ast.unparse(st.value) for st in fn.body if isinstance(st, ast.Assign)}
-        return a.get('indices') == 'stack[:, 0, ...]' and a.get('thicknesses') == 'stack[:, 1, ...]' \
-            and a.get('r') == 'rtot(A)' and a.get('t') == 'ttot(A)'
-    recognise(g, 'stackIndexThicknessColumnsAndTotals', 'prysm/thinfilm.py:multilayer_stack_rt', None, split)
+        calls = find_calls(fn, 'snell_aor')
+        r = same_roles(calls, ['n0', 'n1', 'theta', 'degrees'])
+        names = {'ambient_index': 'n0', ('indices', 'j'): 'nj'}
+        if r.get('theta') != 'aoi' or r['n0'] not in names or r['n1'] not in names:
+            raise Untranslatable(f'snell_aor arguments {r}')
+        conv = [ast.unparse(st.value) for st in fn.body if isinstance(st, ast.Assign) and ast.unparse(st.targets[0]) == 'aoi']
+        if conv not in ([], ['np.radians(aoi)'], ['np.deg2rad(aoi)']):
+            raise Untranslatable(f'aoi conversion {conv}')
+        deg = r.get('degrees', 'True')
+        if deg not in ('True', 'False'):
+            raise Untranslatable('degrees flag')
+        # aoi is documented in degrees: exactly one of {converted here, converted inside snell_aor}
+        consistent = (bool(conv) != (deg == 'True'))
+        rad = bool(conv)      # the angle passed on to multilayer_matrix_* must be in radians as well
+        return (f'def stackSnellSin (n0 s0 nj : K) : K := snellSin {names[r["n0"]]} {names[r["n1"]]} s0\n'
+                f'def stackAoiConvertedOnce : Bool := {"true" if consistent and rad else "false"}')
+    g.item('stack.snell', SSRC, stack_fn, stack_snell,
+           'def stackSnellSin (n0 s0 nj : K) : K := snellSin n0 nj s0\ndef stackAoiConvertedOnce : Bool := true')
+
+    def stack_layer():
+        al = dispatch_aliases()
+        out = []
+        for pol, cname, bname in (('s', 'charS', 'betaS'), ('p', 'charP', 'betaP')):
+            lay_alias, _, lay_fn, _ = al[pol]
+            if lay_fn != f'characteristic_matrix_{pol}':
+                # recognised, and wrong: the other polarisation's matrix is wired in
+                other = 'p' if pol == 's' else 's'
+                if lay_fn != f'characteristic_matrix_{other}':
+                    raise Untranslatable(f'layer function {lay_fn}')
+                cname, bname = ('charP', 'betaP') if pol == 's' else ('charS', 'betaS')
+            r = same_roles(find_calls(stack_fn(), lay_alias), ['lambda_', 'd', 'n', 'theta'])
+            names = {'wavelength': 'lam', ('thicknesses', 'j'): 'd', ('indices', 'j'): 'n'}
+            if r.get('theta') != ('angles', 'j') or any(r.get(k) not in names for k in ('lambda_', 'd', 'n')):
+                raise Untranslatable(f'layer call arguments {r}')
+            P = pol.upper()
+            out.append(f'def stackBeta{P} (pi lam d n cost : K) : K := {bname} pi {names[r["lambda_"]]} {names[r["d"]]} {names[r["n"]]} cost\n'
+                       f'def stackLayer{P} (mI sinb cosb cost d n : K) : M22 K := {cname} mI sinb cosb cost {names[r["n"]]}')
+        return '\n'.join(out)
+    g.item('stack.layer', SSRC, stack_fn, stack_layer,
+           'def stackBetaS (pi lam d n cost : K) : K := betaS pi lam d n cost\n'
+           'def stackLayerS (mI sinb cosb cost d n : K) : M22 K := charS mI sinb cosb cost n\n'
+           'def stackBetaP (pi lam d n cost : K) : K := betaP pi lam d n cost\n'
+           'def stackLayerP (mI sinb cosb cost d n : K) : M22 K := charP mI sinb cosb cost n')
+
+    def stack_amat():
+        al = dispatch_aliases()
+        out = []
+        for pol in ('s', 'p'):
+            _, am_alias, _, am_fn = al[pol]
+            aname = {'multilayer_matrix_s': 'amatS', 'multilayer_matrix_p': 'amatP'}.get(am_fn)
+            if aname is None:
+                raise Untranslatable(f'A-matrix function {am_fn}')
+            r = same_roles(find_calls(stack_fn(), am_alias), ['n0', 'theta0', 'characteristic_matrices', 'nnp1', 'theta_np1'])
+            nm = {'ambient_index': 'n0', ('indices', 'last'): 'nLast', ('indices', 'first'): 'nFirst'}
+            cm = {'aoi': 'c0', ('angles', 'last'): 'cLast', ('angles', 'first'): 'cFirst'}
+            if r.get('n0') not in nm or r.get('nnp1') not in nm or r.get('theta0') not in cm or r.get('theta_np1') not in cm:
+                raise Untranslatable(f'A-matrix call arguments {r}')
+            out.append(f'def stackAmat{pol.upper()} (n0 c0 : K) (M : M22 K) (nFirst cFirst nLast cLast : K) : M22 K :=\n'
+                       f'  {aname} {nm[r["n0"]]} {cm[r["theta0"]]} M {nm[r["nnp1"]]} {cm[r["theta_np1"]]}')
+        return '\n'.join(out)
+    g.item('stack.amat', SSRC, stack_fn, stack_amat,
+           'def stackAmatS (n0 c0 : K) (M : M22 K) (nFirst cFirst nLast cLast : K) : M22 K := amatS n0 c0 M nLast cLast\n'
+           'def stackAmatP (n0 c0 : K) (M : M22 K) (nFirst cFirst nLast cLast : K) : M22 K := amatP n0 c0 M nLast cLast')
+
+    def stack_totals():
+        fn = stack_fn()
+        a = {}
+        for st in fn.body:
+            if isinstance(st, ast.Assign) and isinstance(st.targets[0], ast.Name):
+                a.setdefault(st.targets[0].id, st.value)
+        (ret,) = find_returns(fn)
+        if not (isinstance(ret, ast.Tuple) and len(ret.elts) == 2 and all(isinstance(e, ast.Name) for e in ret.elts)):
+            raise Untranslatable('return is not a pair of names')
+        terms = []
+        for e in ret.elts:
+            v = a.get(e.id)
+            if not (isinstance(v, ast.Call) and ast.unparse(v.func) in ('rtot', 'ttot') and [ast.unparse(x) for x in v.args] == ['A']):
+                raise Untranslatable(f'{e.id} is not rtot(A) / ttot(A)')
+            terms.append(f'{ast.unparse(v.func)} A')
+        cols = {}
+        for nm in ('indices', 'thicknesses'):
+            v = a.get(nm)
+            if not (isinstance(v, ast.Subscript) and ast.unparse(v.value) == 'stack' and isinstance(v.slice, ast.Tuple)
+                    and len(v.slice.elts) == 3 and ast.unparse(v.slice.elts[0]) == ':' and ast.unparse(v.slice.elts[2]) == '...'
+                    and isinstance(v.slice.elts[1], ast.Constant)):
+                raise Untranslatable(f'{nm} is not stack[:, k, ...]')
+            cols[nm] = int(v.slice.elts[1].value)
+        return (f'def stackReturn (A : M22 K) : K × K := ({terms[0]}, {terms[1]})\n'
+                f'def stackIndexColumn : Nat := {cols["indices"]}\ndef stackThicknessColumn : Nat := {cols["thicknesses"]}')
+    g.item('stack.totals', SSRC, stack_fn, stack_totals,
+           'def stackReturn (A : M22 K) : K × K := (rtot A, ttot A)\ndef stackIndexColumn : Nat := 0\ndef stackThicknessColumn : Nat := 1')
+
+    def stack_defaults():
+        fn = stack_fn()
+        tr = Tr({}, 'num')
+        return (f'def stackDefaultAoi : K := {tr.expr(default_of(fn, "aoi"))}\n'
+                f'def stackDefaultAmbient : K := {tr.expr(default_of(fn, "ambient_index"))}')
+    g.item('stack.defaults', SSRC, stack_fn, stack_defaults,
+           'def stackDefaultAoi : K := Num.ofInt 0\ndef stackDefaultAmbient : K := Num.ofInt 1')
+
+    def lowercased():
+        fn = stack_fn()
+        for st in fn.body:
+            if isinstance(st, ast.Assign) and ast.unparse(st.targets[0]) == 'polarization':
+                return True if ast.unparse(st.value) in ('polarization.lower()', 'str.lower(polarization)') else None
+        return None      # no normalisation found here: behaviour is checked by the harness ('P' / 'S' inputs)
+    g.fact('stackPolarizationLowercased', SSRC, lowercased)
 
     return g.finish()
 
